@@ -96,6 +96,10 @@ def run_catalogue(ctx, binary):
             continue
         finds, n, _ = c02_check.judge_program(res, e["meta"])
         nobs += n
+        if e.get("cls") == c02_catalogue.UNASSIGNED_FIELD_FINDING and res.verdict == "rt-error" and cc.failure_class(res)[1] == "use-of-nil":
+            # the only optional-free expression of the entry is the read of a field whose declared type is PLAIN: the nil
+            # it meets is the field the constructor never assigned (nil is otherwise admissible: the general judge is silent)
+            finds = finds + [("plain-field-is-nil", "a field declared with a non-optional type was never assigned by the constructor and reads as nil: %s" % res.msg[:120])]
         for cls, what in finds:
             ctx.report(e.get("cls") or "catalogue:" + e["name"], "boundary case `%s`: %s" % (e["name"], what),
                        {"entry": e["name"], "program": e["src"], "other_files": e.get("files") or {}, "observed": res.brief(),
